@@ -22,7 +22,9 @@ var sintPool = []string{"-1", "-5", "7", "-128", "127", "-129", "-2147483649", "
 var bigPool = []string{"18446744073709551616", "18446744073709551617", "-18446744073709551616", "1267650600228229401496703205376", "5", "-5", "0",
 	"-9223372036854775808", "9223372036854775808"}
 var fltPool = []string{"1.5", "-0.5", "3", "0", "1e300", "1e-7", "0.1", "123456789.125", "9007199254740992", "-2.25"}
-var strPool = []string{"", "abc", "åb", "日本", "a b", "12", "-3.5", "true", "null", "A", "x\"y\\z", "a\nb", "cab", "abcabc"}
+var strPool = []string{"", "abc", "åb", "日本", "a b", "12", "-3.5", "true", "null", "A", "x\"y\\z", "a\nb", "cab", "abcabc",
+	// number texts around and beyond the 64 bit integers (tonumber has to give the exact integer) and beyond float64
+	"9223372036854775807", "9223372036854775808", "-9223372036854775809", "18446744073709551615", "123456789012345678901234567890", "1e400", "0x10", " 12"}
 var namePool = []string{"a", "b", "c", "zz", "x1", "name", "type", "B", "a_b", "0"}
 
 func pick(r *rand.Rand, p []string) string { return p[r.Intn(len(p))] }
